@@ -486,7 +486,8 @@ func (f *Frame) applyContract(ct *Contract, names []string, args []Val, results 
 	}
 	for ri, r := range ct.Requires {
 		g := env.evalBool(r.Expr)
-		f.oblige(fmt.Sprintf("pre:%s.%d", short, ri), g, fmt.Sprintf("precondition of %s: %s", short, r.Text), pos, nil, true)
+		// (a contract marked `sitesonly` claims nothing but its site obligations)
+		f.oblige(fmt.Sprintf("pre:%s.%d", short, ri), g, fmt.Sprintf("precondition of %s: %s", short, r.Text), pos, nil, !(vc.contract != nil && vc.contract.SitesOnly))
 	}
 	if recursive && vc.contract != nil && vc.contract.Decr != nil {
 		// measure at the call must be smaller than at entry
